@@ -1,7 +1,7 @@
 (* Correspondence and monitor for C01, evaluated on cases written by harness/props/c01.py. *)
 From Coq Require Import NArith List Bool Arith.
 Import ListNotations.
-From HV Require Export lib.Harness model.Validity model.Builder.
+From HV Require Export lib.Harness model.Validity model.Builder spec.BuilderWFS.
 Local Open Scope N_scope.
 
 (* ------------------------------------------------------------------ equality of literals *)
@@ -49,12 +49,15 @@ Definition graph_eqb (a b : graph) : bool :=
    envelope is the same document, and the verdict of the design-time transcription (diagnostic only).
    CProg: the same for a program inside the builder model of model/Builder.v.
    CNeg: a valid document with rule k violated by mutation (self-test of the transcription).
-   CSkip: the builders raised (reported separately by the harness). *)
+   CSkip: the builders raised (reported separately by the harness).
+   CPrem: the type table and the program of a CProg case alone: do the decidable premises of the theorems of
+   props/C01.v hold of the programs the correspondence is sampled on? *)
 Inductive case :=
 | CDoc (h : vhugr) (same : bool) (fake : bool)
 | CProg (p : prog) (h : vhugr) (same : bool) (fake : bool)
 | CNeg (h : vhugr) (k : N)
-| CSkip.
+| CSkip
+| CPrem (tys : list tyinfo) (p : prog).
 
 (* the model run on the program gives the implementation's document *)
 Definition corr (c : case) : bool :=
@@ -69,6 +72,14 @@ Definition mon (c : case) : bool :=
   | CProg _ h same _ => same && valid h
   | CNeg h k => negb (match nthN (rules (v_tys h) (v_subs h) (v_main h)) k with Some b => b | None => true end)
   | CSkip => true
+  | CPrem _ _ => true
+  end.
+
+(* the premises of C01_builder_valid (spec/BuilderWFS.v: wf_prog; and the type table) on an in-model program *)
+Definition prem (c : case) : bool :=
+  match c with
+  | CPrem tys p => wf_prog tys p && r_table tys
+  | _ => true
   end.
 
 (* diagnostic: agreement with the design-time transcription *)
